@@ -79,7 +79,8 @@ def _run_impl(case, d):
             out.append([int(rec["rank"]), int(rec["stream"]), str(rec["idle_category"]), float(rec["idle_time"]) * k, float(rec["idle_time_ratio"])])
     except Exception as e:
         out = {"error": type(e).__name__ + ": " + str(e)[:200]}
-    return {"frames": frames, "d": d_, "streams": ssel, "streams_all": streams_all, "out": out}
+    return {"frames": frames, "d": d_, "streams": ssel, "streams_all": streams_all, "out": out,
+            "frames_altered": fw.frames_altered(case, ta, frames, sym)}
 
 
 def _streams(impl, r):
